@@ -77,10 +77,12 @@ class VfsRequest(request.SmartServerRequest):
     def translate_client_path(self, relpath):
         """Translate a client-side relative path to a server-side path.
 
-        VFS requests are made with escaped paths so the escaping done in
-        SmartServerRequest.translate_client_path leads to double escaping.
-        Remove it here -- the fact that the result is still escaped means
-        that the str() will not fail on valid input.
+        VFS requests are made with url-escaped paths.  The escapes are removed
+        *before* the path is translated, so that separators and parent
+        references hidden behind them (``..%2F``, ``%2E%2E``) take part in the
+        normalisation that keeps the result below the root;
+        SmartServerRequest.translate_client_path then escapes the result
+        exactly once, which is the form the backing transport expects.
 
         Args:
             relpath: The relative path from the client.
@@ -88,8 +90,14 @@ class VfsRequest(request.SmartServerRequest):
         Returns:
             A string path suitable for use on the server side.
         """
-        x = request.SmartServerRequest.translate_client_path(self, relpath)
-        return str(urlutils.unescape(x))
+        if self._root_client_path is None:
+            # No translation is done at all: hand the path on as before.
+            x = request.SmartServerRequest.translate_client_path(self, relpath)
+            return str(urlutils.unescape(x))
+        client_path = urlutils.unescape(relpath.decode("utf-8"))
+        return request.SmartServerRequest.translate_client_path(
+            self, client_path.encode("utf-8")
+        )
 
 
 class HasRequest(VfsRequest):
